@@ -315,7 +315,7 @@ func runC20Once(t fataler, c c20Case, iter int) string {
 func TestC20(t *testing.T) {
 	rec := evid.For("C20")
 	rec.Rule = "rapid-generated histories of 0-15 operations {read, write, big write, ping, CloseRead, NetConn read/write, NetConn deadlines, abandoned reader, abandoned writer, wsjson read/write} on either role with or without compression, ended by a drawn cause {peer sending data frames for ever, Close, CloseNow, peer Close, protocol violation, read-limit excess, context expiry, transport EOF, transport reset, transport cut mid-frame}, after which the user calls Close or CloseNow; each history is repeated 20-50 times in one process. After the final call returned and the bubble is quiescent, the all-goroutine dump must contain no goroutine created by nhooyr.io/websocket. Non-trivial: CloseRead active, or ended by an error/fault rather than a clean close. distinct = hash(mode, ops, ending, final)."
-	rapid.Check(t, func(rt *rapid.T) {
+	checkProp(t, func(rt *rapid.T) {
 		var c c20Case
 		c.Mode = rapid.SampledFrom(c16Modes).Draw(rt, "mode")
 		n := rapid.IntRange(0, 15).Draw(rt, "nOps")
